@@ -93,6 +93,7 @@ def run(rep):
         wts = E.find_templates(s[3], lambda y: ': [ u32 ; 3 ] = [' in E.tmpl_text(y))
         rep.check(len(pts) == 1 and len(wts) == 1, 'C14.compute', 'compute-items', where, f'{len(pts)} pipeline constructors / {len(wts)} workgroup constants per entry', ok_detail='one each')
         for pt in pts[:1]:
+            pt = E.flatten(pt)
             ptxt = E.tmpl_text(pt)
             hv = E.holes(pt)
             nm = hole_after_seq(pt, 'pub fn')
@@ -111,6 +112,7 @@ def run(rep):
             rep.check(wiring, 'C14.compute', 'pipeline-wiring', where,
                       'the constructor does not use the module\'s own create_shader_module / create_pipeline_layout', ok_detail='module and layout from this module')
         for wt in wts[:1]:
+            wt = E.flatten(wt)
             wtxt = E.tmpl_text(wt)
             hd = E.holes(wt)
             wm = _re.search(r'pub const #(\w+) : \[ u32 ; 3 \] = \[ #(\w+) , #(\w+) , #(\w+) \] ;', wtxt)
@@ -133,6 +135,7 @@ def run(rep):
     fh = E.repetition_anchor(ogp, lambda t: '-> FragmentEntry < #' in E.tmpl_text(t))
     rep.floor('fragment entry helper template', len(fh), 1)
     for q, t, s in fh[:1]:
+        t = E.flatten(t)
         f = crate.fns[q]
         where = f"{crate.relfile(f['file'])} fn {f['name']} (template at {t[1]})"
         ent = ('elem', s[2], s[1])
@@ -154,6 +157,7 @@ def run(rep):
     vh = E.repetition_anchor(ogp, lambda t: '-> VertexEntry < #' in E.tmpl_text(t))
     rep.floor('vertex entry helper template', len(vh), 1)
     for q, t, s in vh[:1]:
+        t = E.flatten(t)
         f = crate.fns[q]
         where = f"{crate.relfile(f['file'])} fn {f['name']} (template at {t[1]})"
         ent = ('elem', s[2], s[1])
